@@ -106,9 +106,26 @@ fn pad_now() -> usize {
     }
 }
 
+/// Padding amounts >= OVERFLOW request an *out-of-range* encoding instead: the value is padded
+/// to its maximal length (5 bytes for 32-bit, 10 for 64-bit fields) and bits that do not fit the
+/// field are set in the last byte (amount - OVERFLOW selects which). Such a module is malformed.
+pub const OVERFLOW: usize = 1000;
+
 pub fn leb_u(out: &mut Vec<u8>, v: u64) {
     let pad = pad_now();
+    let start = out.len();
     leb_u_raw(out, v);
+    if pad >= OVERFLOW {
+        // every unsigned LEB128 of Wasm 1.0 is a u32
+        while out.len() - start < 5 {
+            let l = out.len();
+            out[l - 1] |= 0x80;
+            out.push(0x00);
+        }
+        let l = out.len();
+        out[l - 1] |= (1 + ((pad - OVERFLOW) % 7) as u8) << 4;
+        return;
+    }
     if pad > 0 {
         let l = out.len();
         out[l - 1] |= 0x80;
@@ -119,11 +136,29 @@ pub fn leb_u(out: &mut Vec<u8>, v: u64) {
     }
 }
 
-pub fn leb_s(out: &mut Vec<u8>, v: i64) {
+pub fn leb_s32(out: &mut Vec<u8>, v: i32) { leb_s_bits(out, v as i64, 32) }
+pub fn leb_s(out: &mut Vec<u8>, v: i64) { leb_s_bits(out, v, 64) }
+
+fn leb_s_bits(out: &mut Vec<u8>, v: i64, bits: u32) {
     let pad = pad_now();
+    let start = out.len();
     leb_s_raw(out, v);
+    let fill = if v < 0 { 0x7f } else { 0x00 };
+    if pad >= OVERFLOW {
+        let full = if bits == 32 { 5 } else { 10 };
+        while out.len() - start < full {
+            let l = out.len();
+            out[l - 1] |= 0x80;
+            out.push(fill);
+        }
+        // flip one of the bits of the last byte that must be a copy of the sign bit
+        let used = bits - 7 * (full as u32 - 1); // value bits in the last byte: 4 resp. 1
+        let spare = 7 - used;
+        let l = out.len();
+        out[l - 1] ^= 1 << (used + ((pad - OVERFLOW) as u32 % spare));
+        return;
+    }
     if pad > 0 {
-        let fill = if v < 0 { 0x7f } else { 0x00 };
         let l = out.len();
         out[l - 1] |= 0x80;
         for _ in 0..pad - 1 {
@@ -174,7 +209,7 @@ pub fn enc_instrs(out: &mut Vec<u8>, is: &[Instr]) {
             Instr::Op(b) => out.push(*b),
             Instr::Const32(c) => {
                 out.push(0x41);
-                leb_s(out, *c as i64)
+                leb_s32(out, *c)
             }
             Instr::Const64(c) => {
                 out.push(0x42);
@@ -353,7 +388,7 @@ impl Module {
                 match g.ty {
                     Ty::I32 => {
                         b.push(0x41);
-                        leb_s(&mut b, g.init as i32 as i64)
+                        leb_s32(&mut b, g.init as i32)
                     }
                     Ty::I64 => {
                         b.push(0x42);
@@ -380,7 +415,7 @@ impl Module {
             for (off, fs) in &self.elems {
                 b.push(0);
                 b.push(0x41);
-                leb_s(&mut b, *off as i32 as i64);
+                leb_s32(&mut b, *off as i32);
                 b.push(0x0b);
                 leb_u(&mut b, fs.len() as u64);
                 for f in fs {
@@ -420,7 +455,7 @@ impl Module {
             for (off, bytes) in &self.data {
                 b.push(0);
                 b.push(0x41);
-                leb_s(&mut b, *off as i32 as i64);
+                leb_s32(&mut b, *off as i32);
                 b.push(0x0b);
                 leb_u(&mut b, bytes.len() as u64);
                 b.extend_from_slice(bytes);
